@@ -1,12 +1,13 @@
 #!/bin/bash
 # runs every check of the given tier sequentially, logs under work/all-<tier>/
 tier=${1:-quick}
-mkdir -p /verif/work/all-$tier
-cd /verif
-for id in C01 C02 C03 C04 C05 C06 C07 C08 C09 C10 C11 C12 C13 C14 C15 C16 C17 C18 C19 C20; do
+V="$(cd "$(dirname "$0")/.." && pwd)"
+cd "$V"
+mkdir -p "$V/work/all-$tier"
+for id in ${CHECKS:-C01 C02 C03 C04 C05 C06 C07 C08 C09 C10 C11 C12 C13 C14 C15 C16 C17 C18 C19 C20}; do
   s=$(date +%s)
-  timeout ${2:-3600} ./check $id $tier > /verif/work/all-$tier/$id.log 2>&1
+  timeout ${2:-3600} ./check $id $tier > "$V/work/all-$tier/$id.log" 2>&1
   rc=$?
   e=$(date +%s)
-  echo "$id rc=$rc wall=$((e-s))s $(grep -c '^VIOLATION' /verif/work/all-$tier/$id.log) violations; $(grep SUMMARY /verif/work/all-$tier/$id.log)"
+  echo "$id rc=$rc wall=$((e-s))s $(grep -c '^VIOLATION' "$V/work/all-$tier/$id.log") violations; $(grep SUMMARY "$V/work/all-$tier/$id.log")"
 done
